@@ -13,6 +13,7 @@ RULE = ("programs from the typed generator (vf/progs.py; depth/statement bounds 
 RULE += (" " + 'Also: an exhaustive small-domain grid of 2,074 one-binding programs (ranges over start, end in 0..6 x step in none,1,2,3,5,7,0 and negative ones; int and float arithmetic and comparisons over all operand pairs of small pools; `is` over every type name x value kind; the four casts of every value kind and of 16 string forms; mixed-type ==, +, in; not, &&, || on every value kind; select on every value kind; boolean selects over 8 arm sets with and without default), judged by the same reference interpreter.')
 RULE += (" " + 'Round 6: int() of a float truncates towards zero (types_test.ucg: `truncates`), with a grid of 15 floats on both sides of zero.')
 RULE += (" " + 'Round 7: 35 grid programs with a bareword left of `in` that is also bound (to seven kinds of value, as a parameter), against tuple and list subjects.')
+RULE += (" " + 'Round 8: the reference is silent on rounding with negative operands, so values of / and %% there get no verdict from the reference interpreter; a law takes their place: for q = a / b and r = a %% b over 27 x 27 integers (both signs, 0, +-1, near i64 limits; directly, through a function, through map / reduce callbacks) q * b + r == a and |r| < |b|, and a zero divisor fails.')
 
 
 def judge_program(probe, stmts, text=None, fresh=False):
